@@ -136,7 +136,7 @@ package net
 //@   opt spawn_effects yes
 
 //@ func (e *endPoint) RemoveHandler(id int) (err error)
-//@   tags C17
+//@   tags C17 C12
 //@   requires !e.handlersMutex.lockw
 //@   modifies everything
 //@   ensures !e.handlersMutex.lockw
@@ -170,7 +170,7 @@ package net
 // dispatch: messages are only offered to live (never closed) handlers of the table; a handler whose
 // filter returns keep == false is closed exactly once and leaves the table in the same critical section.
 //@ func (e *endPoint) dispatch(msg *Message) (err error)
-//@   tags C17 C10
+//@   tags C17 C10 C12
 //@   requires !e.handlersMutex.lockw && msg != nil && e.stream != nil
 //@   modifies everything
 //@   ensures !e.handlersMutex.lockw
@@ -218,3 +218,24 @@ package net
 //@   trusted
 //@   modifies e.nhandlers
 //@   ensures e.nhandlers == old(e.nhandlers) + 1
+
+// the stream of an endpoint is set at construction
+//@ immutable endPoint.stream
+
+// ---- receive loop (C10, C11): one message is read, then dispatched synchronously, before the next
+// one is read (so handlers see messages in arrival order); a read error closes the endpoint with
+// that error and ends the loop.
+//@ ghostfield nread int counter
+//@ ghostfield ndisp int counter
+//@ func (e *endPoint) process()
+//@   tags C10 C11 C12
+//@   requires e.stream != nil && !e.handlersMutex.lockw && e.nread == e.ndisp
+//@   modifies everything, e.nread, e.ndisp
+//@   call Read#1: assume 0 <= e.stream.pos && e.stream.pos <= e.stream.len
+//@   call Read#1: assert[C10] e.nread == e.ndisp
+//@   call Read#1: ghost e.nread := e.nread + 1
+//@   call dispatch#1: assert[C10] e.nread == e.ndisp + 1 && arg0 == msg
+//@   call dispatch#1: ghost e.ndisp := e.ndisp + 1
+//@   call closeWith#1: assert[C11] err != nil && arg0 == err
+//@   loop 1:
+//@     invariant e.stream != nil && !e.handlersMutex.lockw && e.nread == e.ndisp
